@@ -55,6 +55,27 @@ static long wa_del(void *p){
   for(k=0;k<WA_SLOTS;k++){ size_t i=(s+k)&(WA_SLOTS-1); if(!wa_tab[i].p)return -1; if(wa_tab[i].p==p){ long n=wa_tab[i].n; wa_tab[i].p=(void*)1; wa_live_bytes-=n; wa_live_blocks--; return n; } }
   return -1;
 }
+/* ---- instrumented Ogg page accessors.  libogg is a system binary without sanitizer instrumentation, so a stale ogg_page (header
+ * pointing into sync-buffer storage that has been compacted or reallocated since) read through libogg's own accessors is invisible
+ * to ASan.  The library's calls are routed (link-time --wrap, like the allocator) to these copies, which are compiled with the
+ * harness and therefore checked.  Same results as libogg 1.3.x framing.c. */
+int __wrap_ogg_page_version(const ogg_page *og){ return (int)(og->header[4]); }
+int __wrap_ogg_page_continued(const ogg_page *og){ return (int)(og->header[5]&0x01); }
+int __wrap_ogg_page_bos(const ogg_page *og){ return (int)(og->header[5]&0x02); }
+int __wrap_ogg_page_eos(const ogg_page *og){ return (int)(og->header[5]&0x04); }
+ogg_int64_t __wrap_ogg_page_granulepos(const ogg_page *og){
+  unsigned char *page=og->header; ogg_uint64_t g=page[13]&(0xff); int i;
+  for(i=12;i>=6;i--)g=(g<<8)|(page[i]&0xff);
+  return (ogg_int64_t)g;
+}
+int __wrap_ogg_page_serialno(const ogg_page *og){
+  return (int)((ogg_uint32_t)og->header[14]|((ogg_uint32_t)og->header[15]<<8)|((ogg_uint32_t)og->header[16]<<16)|((ogg_uint32_t)og->header[17]<<24));
+}
+long __wrap_ogg_page_pageno(const ogg_page *og){
+  return (long)((ogg_uint32_t)og->header[18]|((ogg_uint32_t)og->header[19]<<8)|((ogg_uint32_t)og->header[20]<<16)|((ogg_uint32_t)og->header[21]<<24));
+}
+int __wrap_ogg_page_packets(const ogg_page *og){ int i,n=og->header[26],count=0; for(i=0;i<n;i++)if(og->header[27+i]<255)count++; return count; }
+
 void *__wrap_malloc(size_t n){
   void *p;
   if(wa_on){ if(wa_hook)wa_hook(); if(wa_calls++==wa_fail_at)return NULL; }
